@@ -77,11 +77,16 @@ def warm_start(
             else:  # Particle variable
                 values = ncvar[:pid_max]
             # Time type variable needs special treatment
-            if "units" in ncvar.ncattrs() and "since" in ncvar.units:
-                reftime = np.datetime64(ncvar.units.split("since")[1])
+            units = getattr(ncvar, "units", "")
+            is_time = np.dtype(state.dtypes.get(var, float)).kind == "M"
+            if is_time and "since" not in units:
+                # Written without units: seconds since the reference time
+                units = f.variables["time"].units
+            if "since" in units:
+                reftime = np.datetime64(units.split("since")[1].strip())
                 # Whole seconds (a float times a timedelta64 is truncated to
                 # whole units by numpy, and numpy has no unit "d")
-                seconds = dict(s=1, m=60, h=3600, d=86400)[ncvar.units[0]]
+                seconds = dict(s=1, m=60, h=3600, d=86400)[units.strip().lower()[0]]
                 values = np.round(values.astype("f8") * seconds).astype("m8[s]")
                 values = reftime + values
         # Variables not on file, but with defaults
